@@ -259,6 +259,61 @@ func judgeC04(sc *Scope, rings [][]ref.P, acc *Acc) []Problem {
 	return probs
 }
 
+// neckFamily: two wings joined by a thin neck (pinches off at this level), optionally with a
+// triangular hole in one wing; coordinates in quarter pixels relative to the window origin.
+func neckFamily(thorough bool) [][][]ref.P {
+	as, bs, ws, shifts, rots := []int64{22, 25}, []int64{30, 33}, []int64{1, 2}, []int64{0, 1}, []int{0, 3, 7}
+	if thorough {
+		as, bs, ws, shifts = []int64{22, 24, 25}, []int64{30, 32, 33}, []int64{1, 2, 3}, []int64{0, 1, 2, 3}
+		rots = []int{0, 1, 2, 3, 4, 5, 6, 7, 8, 9, 10, 11}
+	}
+	var holePts [2][]ref.P
+	for _, y := range []int64{4, 14, 18, 28} {
+		for _, x := range []int64{4, 12, 18} {
+			holePts[0] = append(holePts[0], ref.P{x, y})
+		}
+		for _, x := range []int64{36, 44, 52} {
+			holePts[1] = append(holePts[1], ref.P{x, y})
+		}
+	}
+	var out [][][]ref.P
+	for _, a := range as {
+		for _, b := range bs {
+			for _, w := range ws {
+				for _, sh := range shifts {
+					c := 16 + sh
+					shell := []ref.P{{0, 0}, {a, 0}, {a, c - w}, {b, c - w}, {b, 0}, {56, 0}, {56, 32}, {b, 32}, {b, c + w}, {a, c + w}, {a, 32}, {0, 32}}
+					for _, rot := range rots {
+						sr := append(append([]ref.P{}, shell[rot:]...), shell[:rot]...)
+						out = append(out, [][]ref.P{sr})
+						for wing := 0; wing < 2; wing++ {
+							pts := holePts[wing]
+							for i := range pts {
+								for j := range pts {
+									for k := range pts {
+										if i == j || j == k || i == k || !(i < j && i < k) {
+											continue // one rotation per triangle (smallest index first), both directions considered below
+										}
+										h := []ref.P{pts[i], pts[j], pts[k]}
+										if ref.Area2(h) >= 0 {
+											continue // holes clockwise
+										}
+										if !ref.HoleOK(sr, nil, h) {
+											continue
+										}
+										out = append(out, [][]ref.P{sr, h})
+									}
+								}
+							}
+						}
+					}
+				}
+			}
+		}
+	}
+	return out
+}
+
 func scopesC04(thorough bool) []Scope {
 	// the exact clipping arithmetic is int64 on 8x scaled units: real-grid blocks are left to C01/C02/C05/C18
 	var scs []Scope
